@@ -171,6 +171,14 @@ Theorem C16_body_copy : forall r,
 Proof. exact body_copy. Qed.
 Print Assumptions C16_body_copy.
 
+(* whereas a copy buffer pre-sized with length n > 0 (instead of capacity) changes the body the
+   regular pipeline and the shadow pipeline read *)
+Theorem C16_presized_clone_refuted : forall n r b,
+  q_body r = Some b -> n <> 0 ->
+  q_body (fst (clone_request_presized n r)) <> q_body r /\ q_body (snd (clone_request_presized n r)) <> q_body r.
+Proof. exact presized_clone_refuted. Qed.
+Print Assumptions C16_presized_clone_refuted.
+
 (* what the endpoint starts the shadow pipeline with: the full request, under the context
    WithTimeout(Background, max of the shadow backends' durations) *)
 Theorem C16_spawned : forall R (F : list backend -> ctx -> request -> R) bs tk now c r x s,
